@@ -7,51 +7,6 @@ use std::panic::AssertUnwindSafe;
 #[path = "gen/c26_s2.rs"] mod c26_s2;
 #[path = "gen/c26_s3.rs"] mod c26_s3;
 #[path = "gen/c26_s4.rs"] mod c26_s4;
-#[path = "gen/c26_s5.rs"] mod c26_s5;
-#[path = "gen/c26_s6.rs"] mod c26_s6;
-#[path = "gen/c26_s7.rs"] mod c26_s7;
-#[path = "gen/c26_s8.rs"] mod c26_s8;
-#[path = "gen/c26_s9.rs"] mod c26_s9;
-#[path = "gen/c26_s10.rs"] mod c26_s10;
-#[path = "gen/c26_s11.rs"] mod c26_s11;
-#[path = "gen/c26_s12.rs"] mod c26_s12;
-#[path = "gen/c26_s13.rs"] mod c26_s13;
-#[path = "gen/c26_s14.rs"] mod c26_s14;
-#[path = "gen/c26_s15.rs"] mod c26_s15;
-#[path = "gen/c26_s16.rs"] mod c26_s16;
-#[path = "gen/c26_s17.rs"] mod c26_s17;
-#[path = "gen/c26_s18.rs"] mod c26_s18;
-#[path = "gen/c26_s19.rs"] mod c26_s19;
-#[path = "gen/c26_s20.rs"] mod c26_s20;
-#[path = "gen/c26_s21.rs"] mod c26_s21;
-#[path = "gen/c26_s22.rs"] mod c26_s22;
-#[path = "gen/c26_s23.rs"] mod c26_s23;
-#[path = "gen/c26_s24.rs"] mod c26_s24;
-#[path = "gen/c26_s25.rs"] mod c26_s25;
-#[path = "gen/c26_s26.rs"] mod c26_s26;
-#[path = "gen/c26_s27.rs"] mod c26_s27;
-#[path = "gen/c26_s28.rs"] mod c26_s28;
-#[path = "gen/c26_s29.rs"] mod c26_s29;
-#[path = "gen/c26_s30.rs"] mod c26_s30;
-#[path = "gen/c26_s31.rs"] mod c26_s31;
-#[path = "gen/c26_s32.rs"] mod c26_s32;
-#[path = "gen/c26_s33.rs"] mod c26_s33;
-#[path = "gen/c26_s34.rs"] mod c26_s34;
-#[path = "gen/c26_s35.rs"] mod c26_s35;
-#[path = "gen/c26_s36.rs"] mod c26_s36;
-#[path = "gen/c26_s37.rs"] mod c26_s37;
-#[path = "gen/c26_s38.rs"] mod c26_s38;
-#[path = "gen/c26_s39.rs"] mod c26_s39;
-#[path = "gen/c26_s40.rs"] mod c26_s40;
-#[path = "gen/c26_s41.rs"] mod c26_s41;
-#[path = "gen/c26_s42.rs"] mod c26_s42;
-#[path = "gen/c26_s43.rs"] mod c26_s43;
-#[path = "gen/c26_s44.rs"] mod c26_s44;
-#[path = "gen/c26_s45.rs"] mod c26_s45;
-#[path = "gen/c26_s46.rs"] mod c26_s46;
-#[path = "gen/c26_s47.rs"] mod c26_s47;
-#[path = "gen/c26_s48.rs"] mod c26_s48;
-#[path = "gen/c26_s49.rs"] mod c26_s49;
 
 fn run_seq(m: &str, p: &str, input: &str) -> String {
     match (m, p) {
@@ -60,51 +15,6 @@ fn run_seq(m: &str, p: &str, input: &str) -> String {
         ("c26_s2", "S") => rt::guarded(AssertUnwindSafe(|| rt::show(c26_s2::SParser::new().parse(input)))),
         ("c26_s3", "S") => rt::guarded(AssertUnwindSafe(|| rt::show(c26_s3::SParser::new().parse(input)))),
         ("c26_s4", "S") => rt::guarded(AssertUnwindSafe(|| rt::show(c26_s4::SParser::new().parse(input)))),
-        ("c26_s5", "S") => rt::guarded(AssertUnwindSafe(|| rt::show(c26_s5::SParser::new().parse(input)))),
-        ("c26_s6", "S") => rt::guarded(AssertUnwindSafe(|| rt::show(c26_s6::SParser::new().parse(input)))),
-        ("c26_s7", "S") => rt::guarded(AssertUnwindSafe(|| rt::show(c26_s7::SParser::new().parse(input)))),
-        ("c26_s8", "S") => rt::guarded(AssertUnwindSafe(|| rt::show(c26_s8::SParser::new().parse(input)))),
-        ("c26_s9", "S") => rt::guarded(AssertUnwindSafe(|| rt::show(c26_s9::SParser::new().parse(input)))),
-        ("c26_s10", "S") => rt::guarded(AssertUnwindSafe(|| rt::show(c26_s10::SParser::new().parse(input)))),
-        ("c26_s11", "S") => rt::guarded(AssertUnwindSafe(|| rt::show(c26_s11::SParser::new().parse(input)))),
-        ("c26_s12", "S") => rt::guarded(AssertUnwindSafe(|| rt::show(c26_s12::SParser::new().parse(input)))),
-        ("c26_s13", "S") => rt::guarded(AssertUnwindSafe(|| rt::show(c26_s13::SParser::new().parse(input)))),
-        ("c26_s14", "S") => rt::guarded(AssertUnwindSafe(|| rt::show(c26_s14::SParser::new().parse(input)))),
-        ("c26_s15", "S") => rt::guarded(AssertUnwindSafe(|| rt::show(c26_s15::SParser::new().parse(input)))),
-        ("c26_s16", "S") => rt::guarded(AssertUnwindSafe(|| rt::show(c26_s16::SParser::new().parse(input)))),
-        ("c26_s17", "S") => rt::guarded(AssertUnwindSafe(|| rt::show(c26_s17::SParser::new().parse(input)))),
-        ("c26_s18", "S") => rt::guarded(AssertUnwindSafe(|| rt::show(c26_s18::SParser::new().parse(input)))),
-        ("c26_s19", "S") => rt::guarded(AssertUnwindSafe(|| rt::show(c26_s19::SParser::new().parse(input)))),
-        ("c26_s20", "S") => rt::guarded(AssertUnwindSafe(|| rt::show(c26_s20::SParser::new().parse(input)))),
-        ("c26_s21", "S") => rt::guarded(AssertUnwindSafe(|| rt::show(c26_s21::SParser::new().parse(input)))),
-        ("c26_s22", "S") => rt::guarded(AssertUnwindSafe(|| rt::show(c26_s22::SParser::new().parse(input)))),
-        ("c26_s23", "S") => rt::guarded(AssertUnwindSafe(|| rt::show(c26_s23::SParser::new().parse(input)))),
-        ("c26_s24", "S") => rt::guarded(AssertUnwindSafe(|| rt::show(c26_s24::SParser::new().parse(input)))),
-        ("c26_s25", "S") => rt::guarded(AssertUnwindSafe(|| rt::show(c26_s25::SParser::new().parse(input)))),
-        ("c26_s26", "S") => rt::guarded(AssertUnwindSafe(|| rt::show(c26_s26::SParser::new().parse(input)))),
-        ("c26_s27", "S") => rt::guarded(AssertUnwindSafe(|| rt::show(c26_s27::SParser::new().parse(input)))),
-        ("c26_s28", "S") => rt::guarded(AssertUnwindSafe(|| rt::show(c26_s28::SParser::new().parse(input)))),
-        ("c26_s29", "S") => rt::guarded(AssertUnwindSafe(|| rt::show(c26_s29::SParser::new().parse(input)))),
-        ("c26_s30", "S") => rt::guarded(AssertUnwindSafe(|| rt::show(c26_s30::SParser::new().parse(input)))),
-        ("c26_s31", "S") => rt::guarded(AssertUnwindSafe(|| rt::show(c26_s31::SParser::new().parse(input)))),
-        ("c26_s32", "S") => rt::guarded(AssertUnwindSafe(|| rt::show(c26_s32::SParser::new().parse(input)))),
-        ("c26_s33", "S") => rt::guarded(AssertUnwindSafe(|| rt::show(c26_s33::SParser::new().parse(input)))),
-        ("c26_s34", "S") => rt::guarded(AssertUnwindSafe(|| rt::show(c26_s34::SParser::new().parse(input)))),
-        ("c26_s35", "S") => rt::guarded(AssertUnwindSafe(|| rt::show(c26_s35::SParser::new().parse(input)))),
-        ("c26_s36", "S") => rt::guarded(AssertUnwindSafe(|| rt::show(c26_s36::SParser::new().parse(input)))),
-        ("c26_s37", "S") => rt::guarded(AssertUnwindSafe(|| rt::show(c26_s37::SParser::new().parse(input)))),
-        ("c26_s38", "S") => rt::guarded(AssertUnwindSafe(|| rt::show(c26_s38::SParser::new().parse(input)))),
-        ("c26_s39", "S") => rt::guarded(AssertUnwindSafe(|| rt::show(c26_s39::SParser::new().parse(input)))),
-        ("c26_s40", "S") => rt::guarded(AssertUnwindSafe(|| rt::show(c26_s40::SParser::new().parse(input)))),
-        ("c26_s41", "S") => rt::guarded(AssertUnwindSafe(|| rt::show(c26_s41::SParser::new().parse(input)))),
-        ("c26_s42", "S") => rt::guarded(AssertUnwindSafe(|| rt::show(c26_s42::SParser::new().parse(input)))),
-        ("c26_s43", "S") => rt::guarded(AssertUnwindSafe(|| rt::show(c26_s43::SParser::new().parse(input)))),
-        ("c26_s44", "S") => rt::guarded(AssertUnwindSafe(|| rt::show(c26_s44::SParser::new().parse(input)))),
-        ("c26_s45", "S") => rt::guarded(AssertUnwindSafe(|| rt::show(c26_s45::SParser::new().parse(input)))),
-        ("c26_s46", "S") => rt::guarded(AssertUnwindSafe(|| rt::show(c26_s46::SParser::new().parse(input)))),
-        ("c26_s47", "S") => rt::guarded(AssertUnwindSafe(|| rt::show(c26_s47::SParser::new().parse(input)))),
-        ("c26_s48", "S") => rt::guarded(AssertUnwindSafe(|| rt::show(c26_s48::SParser::new().parse(input)))),
-        ("c26_s49", "S") => rt::guarded(AssertUnwindSafe(|| rt::show(c26_s49::SParser::new().parse(input)))),
         _ => "NOPARSER".to_string(),
     }
 }
@@ -115,51 +25,6 @@ fn run_mt(m: &str, p: &str, threads: usize, rounds: usize, inputs: &[String]) ->
         ("c26_s2", "S") => { let p = c26_s2::SParser::new(); rt::shared(&p, inputs, threads, rounds, |p, s| rt::guarded(AssertUnwindSafe(|| rt::show(p.parse(s))))) }
         ("c26_s3", "S") => { let p = c26_s3::SParser::new(); rt::shared(&p, inputs, threads, rounds, |p, s| rt::guarded(AssertUnwindSafe(|| rt::show(p.parse(s))))) }
         ("c26_s4", "S") => { let p = c26_s4::SParser::new(); rt::shared(&p, inputs, threads, rounds, |p, s| rt::guarded(AssertUnwindSafe(|| rt::show(p.parse(s))))) }
-        ("c26_s5", "S") => { let p = c26_s5::SParser::new(); rt::shared(&p, inputs, threads, rounds, |p, s| rt::guarded(AssertUnwindSafe(|| rt::show(p.parse(s))))) }
-        ("c26_s6", "S") => { let p = c26_s6::SParser::new(); rt::shared(&p, inputs, threads, rounds, |p, s| rt::guarded(AssertUnwindSafe(|| rt::show(p.parse(s))))) }
-        ("c26_s7", "S") => { let p = c26_s7::SParser::new(); rt::shared(&p, inputs, threads, rounds, |p, s| rt::guarded(AssertUnwindSafe(|| rt::show(p.parse(s))))) }
-        ("c26_s8", "S") => { let p = c26_s8::SParser::new(); rt::shared(&p, inputs, threads, rounds, |p, s| rt::guarded(AssertUnwindSafe(|| rt::show(p.parse(s))))) }
-        ("c26_s9", "S") => { let p = c26_s9::SParser::new(); rt::shared(&p, inputs, threads, rounds, |p, s| rt::guarded(AssertUnwindSafe(|| rt::show(p.parse(s))))) }
-        ("c26_s10", "S") => { let p = c26_s10::SParser::new(); rt::shared(&p, inputs, threads, rounds, |p, s| rt::guarded(AssertUnwindSafe(|| rt::show(p.parse(s))))) }
-        ("c26_s11", "S") => { let p = c26_s11::SParser::new(); rt::shared(&p, inputs, threads, rounds, |p, s| rt::guarded(AssertUnwindSafe(|| rt::show(p.parse(s))))) }
-        ("c26_s12", "S") => { let p = c26_s12::SParser::new(); rt::shared(&p, inputs, threads, rounds, |p, s| rt::guarded(AssertUnwindSafe(|| rt::show(p.parse(s))))) }
-        ("c26_s13", "S") => { let p = c26_s13::SParser::new(); rt::shared(&p, inputs, threads, rounds, |p, s| rt::guarded(AssertUnwindSafe(|| rt::show(p.parse(s))))) }
-        ("c26_s14", "S") => { let p = c26_s14::SParser::new(); rt::shared(&p, inputs, threads, rounds, |p, s| rt::guarded(AssertUnwindSafe(|| rt::show(p.parse(s))))) }
-        ("c26_s15", "S") => { let p = c26_s15::SParser::new(); rt::shared(&p, inputs, threads, rounds, |p, s| rt::guarded(AssertUnwindSafe(|| rt::show(p.parse(s))))) }
-        ("c26_s16", "S") => { let p = c26_s16::SParser::new(); rt::shared(&p, inputs, threads, rounds, |p, s| rt::guarded(AssertUnwindSafe(|| rt::show(p.parse(s))))) }
-        ("c26_s17", "S") => { let p = c26_s17::SParser::new(); rt::shared(&p, inputs, threads, rounds, |p, s| rt::guarded(AssertUnwindSafe(|| rt::show(p.parse(s))))) }
-        ("c26_s18", "S") => { let p = c26_s18::SParser::new(); rt::shared(&p, inputs, threads, rounds, |p, s| rt::guarded(AssertUnwindSafe(|| rt::show(p.parse(s))))) }
-        ("c26_s19", "S") => { let p = c26_s19::SParser::new(); rt::shared(&p, inputs, threads, rounds, |p, s| rt::guarded(AssertUnwindSafe(|| rt::show(p.parse(s))))) }
-        ("c26_s20", "S") => { let p = c26_s20::SParser::new(); rt::shared(&p, inputs, threads, rounds, |p, s| rt::guarded(AssertUnwindSafe(|| rt::show(p.parse(s))))) }
-        ("c26_s21", "S") => { let p = c26_s21::SParser::new(); rt::shared(&p, inputs, threads, rounds, |p, s| rt::guarded(AssertUnwindSafe(|| rt::show(p.parse(s))))) }
-        ("c26_s22", "S") => { let p = c26_s22::SParser::new(); rt::shared(&p, inputs, threads, rounds, |p, s| rt::guarded(AssertUnwindSafe(|| rt::show(p.parse(s))))) }
-        ("c26_s23", "S") => { let p = c26_s23::SParser::new(); rt::shared(&p, inputs, threads, rounds, |p, s| rt::guarded(AssertUnwindSafe(|| rt::show(p.parse(s))))) }
-        ("c26_s24", "S") => { let p = c26_s24::SParser::new(); rt::shared(&p, inputs, threads, rounds, |p, s| rt::guarded(AssertUnwindSafe(|| rt::show(p.parse(s))))) }
-        ("c26_s25", "S") => { let p = c26_s25::SParser::new(); rt::shared(&p, inputs, threads, rounds, |p, s| rt::guarded(AssertUnwindSafe(|| rt::show(p.parse(s))))) }
-        ("c26_s26", "S") => { let p = c26_s26::SParser::new(); rt::shared(&p, inputs, threads, rounds, |p, s| rt::guarded(AssertUnwindSafe(|| rt::show(p.parse(s))))) }
-        ("c26_s27", "S") => { let p = c26_s27::SParser::new(); rt::shared(&p, inputs, threads, rounds, |p, s| rt::guarded(AssertUnwindSafe(|| rt::show(p.parse(s))))) }
-        ("c26_s28", "S") => { let p = c26_s28::SParser::new(); rt::shared(&p, inputs, threads, rounds, |p, s| rt::guarded(AssertUnwindSafe(|| rt::show(p.parse(s))))) }
-        ("c26_s29", "S") => { let p = c26_s29::SParser::new(); rt::shared(&p, inputs, threads, rounds, |p, s| rt::guarded(AssertUnwindSafe(|| rt::show(p.parse(s))))) }
-        ("c26_s30", "S") => { let p = c26_s30::SParser::new(); rt::shared(&p, inputs, threads, rounds, |p, s| rt::guarded(AssertUnwindSafe(|| rt::show(p.parse(s))))) }
-        ("c26_s31", "S") => { let p = c26_s31::SParser::new(); rt::shared(&p, inputs, threads, rounds, |p, s| rt::guarded(AssertUnwindSafe(|| rt::show(p.parse(s))))) }
-        ("c26_s32", "S") => { let p = c26_s32::SParser::new(); rt::shared(&p, inputs, threads, rounds, |p, s| rt::guarded(AssertUnwindSafe(|| rt::show(p.parse(s))))) }
-        ("c26_s33", "S") => { let p = c26_s33::SParser::new(); rt::shared(&p, inputs, threads, rounds, |p, s| rt::guarded(AssertUnwindSafe(|| rt::show(p.parse(s))))) }
-        ("c26_s34", "S") => { let p = c26_s34::SParser::new(); rt::shared(&p, inputs, threads, rounds, |p, s| rt::guarded(AssertUnwindSafe(|| rt::show(p.parse(s))))) }
-        ("c26_s35", "S") => { let p = c26_s35::SParser::new(); rt::shared(&p, inputs, threads, rounds, |p, s| rt::guarded(AssertUnwindSafe(|| rt::show(p.parse(s))))) }
-        ("c26_s36", "S") => { let p = c26_s36::SParser::new(); rt::shared(&p, inputs, threads, rounds, |p, s| rt::guarded(AssertUnwindSafe(|| rt::show(p.parse(s))))) }
-        ("c26_s37", "S") => { let p = c26_s37::SParser::new(); rt::shared(&p, inputs, threads, rounds, |p, s| rt::guarded(AssertUnwindSafe(|| rt::show(p.parse(s))))) }
-        ("c26_s38", "S") => { let p = c26_s38::SParser::new(); rt::shared(&p, inputs, threads, rounds, |p, s| rt::guarded(AssertUnwindSafe(|| rt::show(p.parse(s))))) }
-        ("c26_s39", "S") => { let p = c26_s39::SParser::new(); rt::shared(&p, inputs, threads, rounds, |p, s| rt::guarded(AssertUnwindSafe(|| rt::show(p.parse(s))))) }
-        ("c26_s40", "S") => { let p = c26_s40::SParser::new(); rt::shared(&p, inputs, threads, rounds, |p, s| rt::guarded(AssertUnwindSafe(|| rt::show(p.parse(s))))) }
-        ("c26_s41", "S") => { let p = c26_s41::SParser::new(); rt::shared(&p, inputs, threads, rounds, |p, s| rt::guarded(AssertUnwindSafe(|| rt::show(p.parse(s))))) }
-        ("c26_s42", "S") => { let p = c26_s42::SParser::new(); rt::shared(&p, inputs, threads, rounds, |p, s| rt::guarded(AssertUnwindSafe(|| rt::show(p.parse(s))))) }
-        ("c26_s43", "S") => { let p = c26_s43::SParser::new(); rt::shared(&p, inputs, threads, rounds, |p, s| rt::guarded(AssertUnwindSafe(|| rt::show(p.parse(s))))) }
-        ("c26_s44", "S") => { let p = c26_s44::SParser::new(); rt::shared(&p, inputs, threads, rounds, |p, s| rt::guarded(AssertUnwindSafe(|| rt::show(p.parse(s))))) }
-        ("c26_s45", "S") => { let p = c26_s45::SParser::new(); rt::shared(&p, inputs, threads, rounds, |p, s| rt::guarded(AssertUnwindSafe(|| rt::show(p.parse(s))))) }
-        ("c26_s46", "S") => { let p = c26_s46::SParser::new(); rt::shared(&p, inputs, threads, rounds, |p, s| rt::guarded(AssertUnwindSafe(|| rt::show(p.parse(s))))) }
-        ("c26_s47", "S") => { let p = c26_s47::SParser::new(); rt::shared(&p, inputs, threads, rounds, |p, s| rt::guarded(AssertUnwindSafe(|| rt::show(p.parse(s))))) }
-        ("c26_s48", "S") => { let p = c26_s48::SParser::new(); rt::shared(&p, inputs, threads, rounds, |p, s| rt::guarded(AssertUnwindSafe(|| rt::show(p.parse(s))))) }
-        ("c26_s49", "S") => { let p = c26_s49::SParser::new(); rt::shared(&p, inputs, threads, rounds, |p, s| rt::guarded(AssertUnwindSafe(|| rt::show(p.parse(s))))) }
         _ => "NOPARSER".to_string(),
     }
 }
